@@ -95,6 +95,25 @@ func (s *csg) over(lo, hi [3]float64) tri {
 			return allOut
 		}
 		return mixed
+	case "plane":
+		// the float expression of contains is monotone in each coordinate (increasing where the
+		// coefficient is positive, decreasing where it is negative): its extremes over the box are
+		// its values at two corners
+		var mn, mx [3]float64
+		for i := 0; i < 3; i++ {
+			if s.p[i] >= 0 {
+				mn[i], mx[i] = lo[i], hi[i]
+			} else {
+				mn[i], mx[i] = hi[i], lo[i]
+			}
+		}
+		if s.p[0]*mx[0]+s.p[1]*mx[1]+s.p[2]*mx[2] <= s.p[3] {
+			return allIn
+		}
+		if !(s.p[0]*mn[0]+s.p[1]*mn[1]+s.p[2]*mn[2] <= s.p[3]) {
+			return allOut
+		}
+		return mixed
 	case "vox":
 		var a, b [3]int
 		outside := false
